@@ -425,7 +425,7 @@ class Gen(object):
                 if body:
                     out.append(["rep", self.int_expr(ivars, 0, 3), body])
                     self.features.add("loop")
-            elif c < 0.985:
+            elif c < 0.985 and r.random() < 0.1:
                 t = r.randrange(0, N_TARGETS)
                 v = self.var()
                 out.append(["itc", t, v])
@@ -434,7 +434,7 @@ class Gen(object):
                 # mark as Coq-bool variable by name
                 self.coqbools = getattr(self, "coqbools", set()) | {v}
                 self.features.add("is_target_complete")
-            elif r.random() < 0.5:
+            elif r.random() < 0.04:
                 out.append(r.choice([["leave"], ["bend", r.randrange(0, N_TARGETS)], ["settype", r.randrange(0, 4)]]))
                 self.budget -= 1
                 self.features.add("raw-structure")
@@ -569,10 +569,17 @@ def vle(D, a, b):
                 if not any(dle(d, fb[t]) for d in ds):
                     return False
             elif fa[t][0] == "L" and fb[t][0] == "L":
+                # [lle]: the deserialised list is the serialiser's list with default-derived elements
+                # inserted (a default is used, without consuming an element, whenever the list is exhausted)
                 la, lb = fa[t][1], fb[t][1]
-                if len(lb) < len(la) or not all(vle(D, x, y) for x, y in zip(la, lb)):
-                    return False
-                if not all(any(dle(d, y) for d in ds) for y in lb[len(la):]):
+
+                def lle(i, j):
+                    if j == len(lb):
+                        return i == len(la)
+                    if i < len(la) and vle(D, la[i], lb[j]) and lle(i + 1, j + 1):
+                        return True
+                    return any(dle(d, lb[j]) for d in ds) and lle(i, j + 1)
+                if not lle(0, 0):
                     return False
             elif not vle(D, fa[t], fb[t]):
                 return False
@@ -858,7 +865,7 @@ def run(ctx):
         "Deserialiser reads from random bytes, then mutated (missing/unused/short/default_values/changed/retyped-to-dict); each case runs "
         "the real Serialiser and the real Deserialiser and both Gallina interpreters; non-trivial = serialisation succeeds with >= 3 operations "
         "(distinct by program+description digest)")
-    n = ctx.pick(600, 12000)
+    n = ctx.pick(3000, 20000)
     cases = []
     for c in load_corpus():
         try:
@@ -869,7 +876,7 @@ def run(ctx):
     ncorpus = len(cases)
     skipped = 0
     while len(cases) < ncorpus + n:
-        chaos = 0.04 if len(cases) % 5 else 0.15
+        chaos = 0.012 if len(cases) % 5 else 0.1
         case = make_case(I, rng, chaos)
         try:
             observe(I, case, rng)
@@ -912,7 +919,7 @@ def run(ctx):
             pass
 
     # ---- property oracle on the implementation ---------------------------------------------
-    m = ctx.pick(1500, 40000)
+    m = ctx.pick(8000, 80000)
     evals = 0
     for case in cases:
         try:
